@@ -478,6 +478,17 @@ def run(ctx):
     ctx.ob("C06.d", da.qual, not bad, "every peer- or network-caused failure of Device.authenticate is an AuthenticationError", func=da.qual, file=da.module.rel,
            construct="Device.authenticate", detail={"escapes": sorted({str(e) for e in esc})},
            fail=f"Device.authenticate can fail with {sorted({str(e) for e in bad})} " + "; ".join(f"{e.site['function'].split('.')[-1]}: {e.site['construct'][:50]}" for e in bad[:3]))
+    # ... and the device-level call really performs the handshake with the credentials it was given: it awaits LAN.authenticate(token, key),
+    # and every handler around that call raises (a swallowed failure reads as "authenticated" to Discover's byte-order loop)
+    das = summarize(prog, da)
+    lan_calls = [(n, t) for n, t in das.ta.terms_at.items() if isinstance(n, ast.Call) and meth_is(t, "authenticate") and strip(t[1][1]) == ("attr", ("param", da.params[0]), "_lan")]
+    passed = bool(lan_calls) and all(len(t[2]) == 2 and [strip(x) for x in t[2]] == [("param", da.args[0]), ("param", da.args[1])] for _n, t in lan_calls) \
+        and all(isinstance(getattr(n, "_parent_await", None), ast.Await) or any(isinstance(a_, ast.Await) and a_.value is n for a_ in ast.walk(da.node)) for n, _t in lan_calls)
+    swallow = [h for t_ in ast.walk(da.node) if isinstance(t_, ast.Try) and any(any(c is n for c in ast.walk(b_)) for b_ in t_.body for n, _t in lan_calls)
+               for h in t_.handlers if not any(isinstance(x, ast.Raise) for x in ast.walk(h))]
+    ctx.ob("C06.d", da.qual, passed and not swallow, "Device.authenticate awaits LAN.authenticate with its own token and key; no handler swallows the failure", func=da.qual,
+           file=da.module.rel, construct="await self._lan.authenticate(token, key)", node=swallow[0] if swallow else None,
+           fail="Device.authenticate does not hand its credentials to an awaited LAN.authenticate, or swallows its failure: the device counts as authenticated without a handshake")
     # reply-content-caused failures at the LAN level (no environment raisers): must already be AuthenticationErrors
     from ..raises import Config, Raises
     from ..bindings import attr_types
